@@ -63,6 +63,8 @@ def classify(case, outputs):
 def check_case(case, rec, runner):
     classes = {case.get("kind", "model")}
     classes.update("op_" + o for o in case.get("ops", ()))
+    if case.get("no_default_gap"):
+        classes.add("no_default_gap")
     try:
         outputs = runner(case)
     except Violation:
@@ -87,7 +89,9 @@ def api_outputs(case):
     res = remap.run_api(case)
     out = []
     for _k, a in res.assemblies.items():
-        out.extend(remap.conv.plain_assembly(a, with_tags=False))
+        for sc in a.scaffolds:
+            # without a configured join gap the left-over path adds `None` rows; only fragments matter here
+            out.append([sc.name, remap.conv.plain_rows([r for r in sc.rows if r is not None], with_tags=False)])
     return out
 
 
@@ -144,6 +148,8 @@ def cases(draw, cli=False):
         case["map"] = m2
         case["ops"] = ops
         case["kind"] = "perturbed"
+    if not cli and draw(st.integers(0, 7)) == 0:
+        case["no_default_gap"] = True  # BuildAssembly's constructor default (no join gap configured)
     if cli:
         case["in_fmt"] = draw(st.sampled_from(["tpf", "agp"]))
         case["out_fmt"] = draw(st.sampled_from(["agp", "tpf"]))
